@@ -5,6 +5,7 @@ import (
 	"go/constant"
 	"go/token"
 	"go/types"
+	"os"
 	"sort"
 	"strings"
 
@@ -1374,6 +1375,11 @@ func rulePanicNilRes(c *Ctx) []*Obligation {
 						o.ok(key, c.Pos(d.Pos()), fmt.Sprintf("cursor typestate: %d token(s) remain at the dereference and the cursor was not moved since the %s() call", r, name))
 						continue
 					}
+					if os.Getenv("NILDEBUG") != "" {
+						r1, ok1 := cf.before[call]
+						r2, ok2 := cf.before[d]
+						fmt.Fprintf(os.Stderr, "NILDEBUG %s call=%s before[call]=%d,%v before[d]=%d,%v op=%v nowrite=%v\n", key, c.Pos(call.Pos()), r1, ok1, r2, ok2, derefOperand(d), c.noCursorWriteSince(fn, derefOperand(d), d, name, pp, pt, 6))
+					}
 					if why, ok := c.functionTokenException(fn, call, cf); ok {
 						o.reviewed(key, c.Pos(d.Pos()), why)
 						continue
@@ -1511,8 +1517,12 @@ func (c *Ctx) cursorWriteBetween(fn *ssa.Function, from, to ssa.Instruction, pkg
 		seen[b] = true
 		ht, hw := scan(b.Instrs)
 		if hw {
-			// only counts if `to` is reachable afterwards
-			if reachableBlocks(b, nil)[to.Block()] {
+			// only counts if `to` is reachable afterwards without executing `from` again (a new value then)
+			stop := map[*ssa.BasicBlock]bool{}
+			if fb != to.Block() && fb != b {
+				stop[fb] = true
+			}
+			if reachableBlocks(b, stop)[to.Block()] {
 				return true
 			}
 			return false
@@ -1675,6 +1685,9 @@ func (c *Ctx) noCursorWriteSince(fn *ssa.Function, v ssa.Value, at ssa.Instructi
 		}
 		for i, e := range x.Edges {
 			pred := x.Block().Preds[i]
+			if deadEdge(pred, x.Block()) {
+				continue // e.g. the exit edge of `for true`
+			}
 			if !c.noCursorWriteSince(fn, e, pred.Instrs[len(pred.Instrs)-1], accessor, pkg, typ, depth-1) {
 				return false
 			}
@@ -1731,4 +1744,21 @@ func (c *Ctx) paramNeverSatisfies(fn *ssa.Function, pi int, bad ssa.Value, depth
 		return false, fmt.Sprintf("call site in %s (%s) passes %s, which is not known to differ from the value that triggers the panic", c.FuncKey(ci.Parent()), c.Pos(ci.Pos()), ex.str(arg))
 	}
 	return true, fmt.Sprintf("%d call site(s) of %s checked", n, fn.Name())
+}
+
+// deadEdge: pred ends in a branch on a constant and the edge to succ is the one never taken.
+func deadEdge(pred, succ *ssa.BasicBlock) bool {
+	ifi, ok := pred.Instrs[len(pred.Instrs)-1].(*ssa.If)
+	if !ok {
+		return false
+	}
+	k, ok := ifi.Cond.(*ssa.Const)
+	if !ok || k.Value == nil || k.Value.Kind() != constant.Bool {
+		return false
+	}
+	taken := pred.Succs[1]
+	if constant.BoolVal(k.Value) {
+		taken = pred.Succs[0]
+	}
+	return succ != taken && pred.Succs[0] != pred.Succs[1]
 }
